@@ -134,6 +134,46 @@ def c09_4(c: Ctx) -> None:
             c.fail(d, f'appends {U(w.node)[:60]}', 'something other than the dispatched event is recorded as the child', node=w.node)
 
 
+def check_child_registration_guards(c: Ctx) -> None:
+    """The children append may be conditional only on: a handler context exists, the current event is known and has a result for that
+    handler, the dispatched event is not the event being handled, and the event was accepted (queue present)."""
+    d, pid, kids = lineage_writes(c)
+    ev = d.params()[1]
+    self_ = d.params()[0]
+    if not kids:
+        c.fail(d, 'no child registration in dispatch', 'events dispatched by a handler are not recorded as its children: the parent completes (and timeouts stop cancelling) without them')
+        return
+    for w in kids:
+        tgt = w.base
+        cur = hid = None
+        if isinstance(tgt, ast.Subscript) and isinstance(tgt.value, ast.Attribute) and isinstance(tgt.value.value, ast.Name) and isinstance(tgt.slice, ast.Name):
+            cur, hid = tgt.value.value.id, tgt.slice.id
+        allowed = {
+            f'{hid} is not None', f'{hid}', f'{cur} is not None', f'{cur}', 'inside_handler_context.get()', f'{hid} in {cur}.event_results',
+            f'{ev}.event_id != {cur}.event_id', f'{cur}.event_id != {ev}.event_id', f'{self_}.event_queue', f'{self_}.event_queue is not None',
+        }
+        bad = []
+        for a in [a for a in q.ancestors_of(w.node) if isinstance(a, ast.If)]:
+            in_body = q.lexically_in(w.node, a, 'body')
+            conj = a.test.values if isinstance(a.test, ast.BoolOp) and isinstance(a.test.op, ast.And) else [a.test]
+            if not in_body:
+                bad.append(f'else-branch of `{U(a.test)[:60]}`')
+                continue
+            for x in conj:
+                if U(x) not in allowed:
+                    bad.append(U(x)[:70])
+        if not bad:
+            c.ok(where(d, w.node), 'child registration is conditional only on: handler context present, not the event being handled, event accepted')
+        else:
+            c.fail(d, f'child registration is additionally conditional on {bad}', 'some events dispatched by a handler (e.g. with an explicitly supplied parent id) are not recorded as its children: the parent completes without them and a timeout does not cancel them', node=w.node)
+
+
+@ob('C09.9', 'DOM', 'every accepted event dispatched from a handler (other than the event being handled) is registered as that handler\'s child: the registration is not conditional on '
+    'anything else (in particular not on event_parent_id, which an explicitly supplied parent leaves untouched)')
+def c09_9(c: Ctx) -> None:
+    check_child_registration_guards(c)
+
+
 @ob('C09.5', 'ORD', 'every handler invocation in execute_handler is preceded by all three context sets, with no suspension point between the sets and the invocation '
     '(the handler task snapshots the right values)')
 def c09_5(c: Ctx) -> None:
@@ -226,6 +266,12 @@ def c09_7(c: Ctx) -> None:
     uses_results = any(isinstance(n, ast.Attribute) and n.attr in ('eventbus_id', 'eventbus_name') for n in own_nodes(u.node))
     path_last = [n for n in own_nodes(u.node) if isinstance(n, ast.Subscript) and isinstance(n.value, ast.Attribute) and n.value.attr == 'event_path'
                  and isinstance(n.slice, ast.UnaryOp) and isinstance(n.slice.op, ast.USub)]
+    ws = [w for w in c.cg.writes.get(u.key, [])]
+    for w in ws:
+        c.fail(u, f'event_bus writes state: {U(w.node)[:70]}', 'event_bus memoises buses (by name) instead of resolving against the live registry: after stop(clear=True) / a name being re-used it returns a stale, stopped bus', node=w.node)
+    mod_reads = [n for n in own_nodes(u.node) if isinstance(n, ast.Call) and call_name(n) == 'get' and isinstance(n.func, ast.Attribute) and isinstance(n.func.value, ast.Name) and n.func.value.id.startswith('_') and n.func.value.id not in TASKVARS and n.func.value.id in c.prog.module(MOD).globals_assign | c.prog.module(MOD).globals_ann.keys()]
+    for n in mod_reads:
+        c.fail(u, f'event_bus reads a module-level cache: {U(n)[:60]}', 'event_bus returns a memoised bus instead of resolving against the live registry', node=n)
     if per_handler or uses_results:
         c.ok(where(u), f'event_bus derives the bus from per-handler context ({sorted(per_handler) or "result record"})')
     elif path_last:
